@@ -284,7 +284,8 @@ def finalise(report, level, level_checker_cmd):
                 json.dump(dict(property=pid, kind='obligation', obligation=v['obligation'], verdict=v['verdict'],
                                solver_output=v['solver_output'], tried=v['tried'], witness=v.get('witness'), smt=v['smt']),
                           f, indent=1, default=str)
-            tail = '' if v.get('witness') else ' no-failing-input-found'
+            # no concrete failing INPUT comes with an obligation (an AST obligation has the offending node as witness: in the replay file)
+            tail = ' no-failing-input-found'
             lines.append('VIOLATION property=%s replay=%s obligation=%s%s' % (pid, path, v['obligation'], tail))
             out_violations.append(v)
     nviol = len(inputs) + (0 if inputs else len(obls))
